@@ -898,8 +898,16 @@ func goExpectOK(ctor string, plat *c19Plat, user []c19Opt) bool {
 	if !ok {
 		return false
 	}
+	// the ssh argument object exists only for the two ssh transports without a custom transport:
+	// an ssh-only option whose file does not exist fails there and is ignored everywhere else
+	tt := "system"
+	if v := exp["generic.Driver.TransportType"]; len(v) == 1 {
+		tt = string(v[0])
+	}
+	_, custom := exp["transport.Args.UserImplementation"]
+	sshBuilt := (tt == "system" || tt == "standard") && !custom && ctor != "logging"
 	for _, o := range user {
-		if !o.envOk {
+		if !o.envOk && (sshBuilt || !strings.HasPrefix(o.name, "WithSSH")) {
 			return false
 		}
 		if vs, ok := c19Valid[o.name]; ok {
@@ -1822,6 +1830,43 @@ func runC19(c *ctx) {
 				u = append(u, genOpt(r, c19DriverOpts[r.Intn(len(c19DriverOpts))], false))
 			}
 			cases = append(cases, c19Case{class: class, ctor: p.merged().driverType, plat: p, user: u})
+		}
+		// (3c) ssh-only options — with existing and with missing files — on drivers that build no ssh
+		// argument object (telnet, file, custom transport), through all four constructors: they are
+		// not applicable there and must be ignored silently, whatever their value
+		for i := 0; i < c.n(500, 20000); i++ {
+			ctor := r.Pick([]string{"generic", "network", "netconf", "platform-generic", "platform-network"})
+			var u []c19Opt
+			var p *c19Plat
+			how := r.Intn(3)
+			if strings.HasPrefix(ctor, "platform-") {
+				p = &c19Plat{driverType: strings.TrimPrefix(ctor, "platform-"), ddp: "exec", privs: genOpt(r, "WithPrivilegeLevels", false).args[0]}
+				ctor = p.driverType
+				if how < 2 && r.Bool() {
+					p.opts = append(p.opts, c19PlatOpt{name: "transport-type", kind: 's', s: []string{"telnet", "file"}[how]})
+					how = 3
+				}
+			} else if ctor == "network" {
+				u = append(u, netPrivs()...)
+			}
+			switch how {
+			case 0:
+				u = append(u, opt1("WithTransportType", "telnet"))
+			case 1:
+				u = append(u, opt1("WithTransportType", "file"))
+			case 2:
+				u = append(u, genOpt(r, "WithCustomTransport", false))
+			}
+			for j := r.Range(1, 4); j > 0; j-- {
+				name := r.Pick([]string{"WithSSHConfigFile", "WithSSHKnownHostsFile", "WithSSHConfigFileSystem", "WithSSHKnownHostsFileSystem",
+					"WithAuthNoStrictKey", "WithAuthPrivateKey", "WithAuthPassphrase"})
+				at := r.Intn(len(u) + 1)
+				u = append(u[:at:at], append([]c19Opt{genOpt(r, name, c19CanBeInvalid[name] && r.Chance(2, 3))}, u[at:]...)...)
+			}
+			for j := r.Intn(3); j > 0; j-- {
+				u = append(u, genOpt(r, c19DriverOpts[r.Intn(len(c19DriverOpts))], false))
+			}
+			cases = append(cases, c19Case{class: "ssh-option-without-ssh", ctor: ctor, plat: p, user: u})
 		}
 		// (3b) directed: options / platform option names whose regenerated table row differs from
 		// the expected row (a table obligation is broken) are sampled heavily with boundary values,
